@@ -7,7 +7,7 @@ CONSTANTS
   Contexts = {"CB", "IB"}
   Origins = {"o1", "o2", "o3", "o4", "o5", "o6"}
   IndexKeyOf <- TrIndexKeyOf
-  Anons = {"a0", "a1", "a2", "a3", "a4", "a5"}
+  Anons = {"a0", "a1", "a2", "a3", "a4", "a5", "a6", "a7", "a8"}
   ClientBlindCtx = "CB"
   IssuerBlindCtx = "IB"
   Enforce = {"quiet", "verdict", "registered-after", "client-indices-match-model", "unknown-event"}
